@@ -27,10 +27,21 @@ def specF (fs : FSt) : Ev → Json
   | .c (.isRunning i) =>
     match fs.st.ps.objs[i]? with
     | some o =>
+      -- "readable": /proc/pid/stat of the object's PID opens right now (Spec.StatOpens: PID free or holder readable) —
+      -- in histories with unreadable phases the clause C02_not_running_after_gone_readable speaks exactly then
       if fs.faulty.contains o.pid then
-        jObj [("bool", Json.bool (Spec.listedB fs.st.kern o)), ("may_raise", Json.bool true)]
-      else jObj [("bool", Json.bool (Spec.listedB fs.st.kern o))]
+        jObj [("bool", Json.bool (Spec.listedB fs.st.kern o)), ("may_raise", Json.bool true),
+              ("readable", Json.bool (Spec.statOpensB fs.st.kern o.pid))]
+      else jObj [("bool", Json.bool (Spec.listedB fs.st.kern o)), ("readable", Json.bool (Spec.statOpensB fs.st.kern o.pid))]
     | none => jObj []
+  | .c (.eq i j) =>
+    -- "known": at least one of the two was built while its stat file opened (it has a start time;
+    -- C02_unknown_start_meaning): then a True == must mean the same process (C02_eq_any_readability)
+    match fs.st.ps.objs[i]?, fs.st.ps.objs[j]? with
+    | some a, some b =>
+      jObj [("bool", Json.bool (Spec.sameB a b)), ("same_pid", Json.bool (a.pid == b.pid)),
+            ("known", Json.bool (a.ident.isSome || b.ident.isSome))]
+    | _, _ => jObj []
   | ev => specOf fs.st ev
 
 def jOutFB : Option OutF → Json
